@@ -3,7 +3,7 @@ import struct
 from fractions import Fraction
 
 from vlib.engine import Case
-from . import e2e, geomgen as G, topo2
+from . import e2e, geomgen as G, topo2, options_cases
 from .geomgen import f32, f32_bits, bits_f32
 
 ID = "C12"
@@ -280,6 +280,12 @@ def cases_for_sides(sides, pair_id):
         model = f"qattr {bits} {nc} {','.join(map(str, flat))} {f32_bits(R)} {','.join(str(f32_bits(o)) for o in org)}"
         op = "encdec " + " ".join(s.toks) + " -- " + s.g.to_text()
         other = sides[1 - si] if len(sides) > 1 else None
+        history = False
+        if si == 1 and other is not None and "expert=1" not in s.toks and "expert=1" not in other.toks and pair_id % 3 == 0:
+            # the tiling scenario: ONE draco::Encoder object encodes A and then B, the explicit parameters being set
+            # before each (op `encdech`; the output has the format of `encdec` for B)
+            op = "encdech " + " ".join(other.toks) + " -- " + other.g.to_text() + " ;; " + " ".join(s.toks) + " -- " + s.g.to_text()
+            history = True
 
         def oracle(hout, case, s=s, other=other, second=(si == 1)):
             v, out = s.analyse(hout)
@@ -324,7 +330,7 @@ def cases_for_sides(sides, pair_id):
             return None
 
         tags = [f"pair-side:{'AB'[si]}", "mesh" if s.g.is_mesh else "pc", f"explicit-attribute:{ {0: 'position', 3: 'texcoord', 4: 'generic'}.get(att_type, att_type) }x{nc}",
-                "api:expert" if "expert=1" in s.toks else "api:encoder", "bits:" + ("1-7" if bits < 8 else "8-15" if bits < 16 else "16-22" if bits < 23 else "23-30")]
+                "api:expert" if "expert=1" in s.toks else ("api:encoder-object-reused" if history else "api:encoder"), "bits:" + ("1-7" if bits < 8 else "8-15" if bits < 16 else "16-22" if bits < 23 else "23-30")]
         for t in s.toks:
             if t.startswith(("method=", "submethod=", "builtin=")):
                 tags.append(t.replace("=", ":"))
@@ -357,6 +363,8 @@ def generate(rng, tier):
     n = 1500 if tier == "thorough" else 400
     for i in range(n):
         cases += make_pair(rng, tier, i)
+    # SetAttributeExplicitQuantization stores origin / range through Options::SetVector / SetFloat: the option store vs. its Lean model
+    cases += options_cases.cases(rng, 600 if tier == "thorough" else 150)
     return cases
 
 
